@@ -29,6 +29,7 @@ Proof. intros a b H c d H'. rewrite !rdiv_ok, H, H'. reflexivity. Qed.
 Global Instance rabs_proper : Proper (Qeq ==> Qeq) rabs.
 Proof. intros a b H. rewrite !rabs_ok, H. reflexivity. Qed.
 
+Ltac rok := repeat first [rewrite radd_ok | rewrite rsub_ok | rewrite rmul_ok | rewrite rdiv_ok | rewrite rabs_ok | rewrite rneg_ok].
 Ltac qsimp := unfold radd, rsub, rmul, rdiv, rabs, rneg in *; rewrite ?Qred_correct in *.
 
 (* Q of a nat, and list sums *)
